@@ -93,8 +93,17 @@ func (propC14) Gen(seed uint64, ex map[string]bool) interface{} {
 	vec(map[string]int{"tokenizer.min_capacity": 1, "tokenizer.capacity_divisor": 1000})
 	vec(map[string]int{"tokenizer.min_capacity": 1, "tokenizer.capacity_divisor": 1, "parser.optimized_threshold": 0})
 	vec(map[string]int{"tokenslice.pool_min_cap": 1, "tokenslice.pool_max_cap": inf, "tokenslice.direct_alloc_threshold": 1})
-	if r.P(50) {
-		vec(map[string]int{"tokenslice.pool_min_cap": 1, "tokenslice.pool_max_cap": inf, "parser.optimized_threshold": 0, "tokenizer.min_capacity": 2})
+	vec(map[string]int{"tokenslice.pool_min_cap": 1, "tokenslice.pool_max_cap": inf, "parser.optimized_threshold": 0, "tokenizer.min_capacity": 2})
+	if !ex["tier:thorough"] {
+		// quick tier: the shipped constants and a random four of the seven other vectors per run (more runs per second;
+		// every vector is still used by four sevenths of the runs)
+		keep := sc.Knobs[:1]
+		rest := append([]map[string]int{}, sc.Knobs[1:]...)
+		for i := len(rest) - 1; i > 0; i-- {
+			j := r.N(i + 1)
+			rest[i], rest[j] = rest[j], rest[i]
+		}
+		sc.Knobs = append(keep, rest[:4]...)
 	}
 	if r.P(40) {
 		z := &c14Size{Family: r.N(c14SizeFamilies), Var: r.N(7)}
@@ -105,7 +114,7 @@ func (propC14) Gen(seed uint64, ex map[string]bool) interface{} {
 		}
 		sc.Size = z
 	}
-	if r.P(34) && !ex["real-padding"] {
+	if r.P(40) && !ex["real-padding"] {
 		sc.PadKind = pick(r, []string{"text", "comment", "text", "lines", "manycomments", "constructs", "nesting"})
 		all := []int{60, 250, 1000, 4090, 4097, 5000, 21000, 70000, 110000, 300000}
 		n := r.Range(1, 3)
